@@ -248,6 +248,21 @@ var knownTypes = []uint16{ie.CreatePDR, ie.PDI, ie.CreateFAR, ie.ForwardingParam
 	ie.PDRID, ie.FARID, ie.QERID, ie.URRID, ie.BARID, ie.FSEID, ie.NodeID, ie.RecoveryTimeStamp, ie.QFI, ie.RQI, ie.PagingPolicyIndicator, ie.PFCPSMReqFlags,
 	ie.DownlinkDataNotificationDelay, ie.SuggestedBufferingPacketsCount, ie.UpdateBARWithinSessionModificationRequest, 0, 0xffff, 0x8001, 0x7fff, 300}
 
+// toTail moves target to the end of its group, the group to the end of its group, and so on up to the message.
+func toTail(ns []*Node, target *Node) ([]*Node, bool) {
+	for i, n := range ns {
+		hit := n == target
+		if !hit && len(n.Kids) > 0 {
+			n.Kids, hit = toTail(n.Kids, target)
+		}
+		if hit {
+			out := append(append([]*Node{}, ns[:i]...), ns[i+1:]...)
+			return append(out, n), true
+		}
+	}
+	return ns, false
+}
+
 func mutate(t *rapid.T, m *Msg, witness uint64) {
 	var nodes []*Node
 	all(m.IEs, &nodes)
@@ -286,9 +301,22 @@ func mutate(t *rapid.T, m *Msg, witness uint64) {
 		}
 	}
 	k := rapid.SampledFrom([]string{"kid-del", "kid-del", "kid-del", "sdf-text", "sdf-text", "sdf-text", "id-value", "id-value", "id-value", "id-value", "deep-field", "deep-field", "deep-field", "deep-field", "deep-trunc", "deep-trunc", "hdr-flags", "hdr-len", "hdr-type", "hdr-seid", "hdr-seq", "ie-type", "ie-len-delta", "ie-len-set", "ie-trunc", "ie-extend",
-		"ie-pattern", "ie-flipbit", "ie-dup", "ie-del", "ie-swap", "ie-nest", "ie-empty", "trunc", "ie-type", "ie-len-delta", "ie-pattern", "ie-flipbit"}).Draw(t, "mut")
+		"ie-pattern", "ie-flipbit", "ie-dup", "ie-del", "ie-swap", "ie-nest", "ie-empty", "trunc", "ie-type", "ie-len-delta", "ie-pattern", "ie-flipbit", "to-tail", "to-tail", "to-tail"}).Draw(t, "mut")
 	m.Muts = append(m.Muts, k)
 	switch k {
+	case "to-tail":
+		// a well-formed message in another (legal) IE order: one leaf IE becomes the last IE of its group, the group the last of
+		// its group ... so that the leaf's last octet is the last octet of the datagram - a decoder reading past the IE's
+		// length finds the next IE's header anywhere else, and the end of the receive buffer here
+		var leaves []*Node
+		for _, n := range nodes {
+			if !n.Grouped {
+				leaves = append(leaves, n)
+			}
+		}
+		if len(leaves) > 0 {
+			m.IEs, _ = toTail(m.IEs, leaves[rapid.IntRange(0, len(leaves)-1).Draw(t, "leaf")])
+		}
 	case "kid-del":
 		// an otherwise well-formed grouped IE (at any depth) lacking one of its children: conditional and mandatory IEs absent
 		if len(grouped) > 0 {
@@ -787,6 +815,24 @@ func TestC07(t *testing.T) {
 		m.From = 0
 		m.Muts = []string{fmt.Sprintf("amplified-answer-%d", npdr)}
 		both(t, Case{Sessions: 1, Msgs: []*Msg{m}})
+	}
+	// every leaf IE of the session-level base messages once as the last IE of the datagram (legal re-ordering; see "to-tail")
+	for _, bi := range []int{7, 8, 9} {
+		var leaves []*Node
+		all(fromBytes(baseMessages(nodeIDPlaceholder, []uint64{2})[bi]).IEs, &leaves)
+		for li, l := range leaves {
+			if l.Grouped {
+				continue
+			}
+			m := fromBytes(baseMessages(nodeIDPlaceholder, []uint64{2})[bi])
+			var nodes []*Node
+			all(m.IEs, &nodes)
+			m.IEs, _ = toTail(m.IEs, nodes[li])
+			m.From = 0
+			m.Muts = []string{fmt.Sprintf("to-tail-sweep-%d-%d", bi, li)}
+			vcore.E.Class("leaf_ie_at_the_end_of_the_datagram")
+			both(t, Case{Sessions: 1, Msgs: []*Msg{m}})
+		}
 	}
 	// structure-aware
 	vcore.Check(t, vcore.N(1500, 12000), func(rt *rapid.T) {
